@@ -1,5 +1,6 @@
 import XlModel.Calc
 import XlModel.CalcFloat
+import XlModel.CalcCheck
 import XlModel.Drv.Util
 /-!
 C08 line protocol (stateful: a workbook is built by `cell` lines).
@@ -149,6 +150,29 @@ def resolveWord (st : St) (w : String) : String :=
     else w
   | _ => w
 
+/-- image of a non-error Spec value as an operand (Props.C08.toImpl), printed -/
+def showToImpl : Spec.Val Float → String
+  | .num x => "num " ++ bitsOut x
+  | .bool b => "bool " ++ (if b then "1" else "0")
+  | .text s => "str " ++ hexOut s
+  | .blank => "str -"
+  | .err _ => "?"
+
+/-- the relation `R` of calc_correct_partial, decided on printed images -/
+def relR (r : Except Impl.MErr (Impl.Arg Float)) (s : Spec.Val Float) : Bool :=
+  match s, r with
+  | .err _, .error _ => true
+  | .err _, .ok _ => false
+  | s, r => showRes r == showToImpl s
+
+/-- EnvRel at one cell: known to both sides (or to neither), no error value, same operand image -/
+def refOK (st : St) (k : Str) : Bool :=
+  match st.lookS k, st.lookI k with
+  | none, none => true
+  | some a, some c =>
+    !Check.isErr a && showArg (Impl.tokenToArg (Impl.argToTok c)) == showToImpl a
+  | _, _ => false
+
 /-- evaluate tokens|tree; returns the answer line and the two values -/
 def evalLine (st : St) (w : List String) : Option (String × Except Impl.MErr (Impl.Arg Float) × Spec.Val Float) :=
   match splitBar (w.map (resolveWord st)) with
@@ -169,8 +193,12 @@ def evalLine (st : St) (w : List String) : Option (String × Except Impl.MErr (I
       let ss := match more, sp with
         | [["tol", _]], .num x => "num~ " ++ (if x.isNaN then "nan" else "ok")
         | _, _ => showSpec sp
+      -- executable instance of calc_correct_partial: hypotheses hold ⇒ conclusion must hold
+      let thmFail := more.isEmpty && Check.noDeviant st.lookS (refOK st) e &&
+        !relR r (Spec.eval st.lookS e)
       some (rs ++ " render=" ++ (if rendered then "ok" else "DIFF") ++
-        " tree=" ++ (if sameRes r rt then "ok" else "DIFF") ++ " S=" ++ ss, r, sp)
+        " tree=" ++ (if sameRes r rt then "ok" else "DIFF") ++ " S=" ++ ss ++
+        (if thmFail then " THM-FAIL" else ""), r, sp)
     | _, _ => none
   | _ => none
 
